@@ -88,6 +88,12 @@ def make_inputs(ctx):
     pool = [t for k, t in texts if k in ("cgen", "declgen", "scopegen", "typedefgen", "shape")]
     for i in range(400 if q else 12000):
         texts.append(("ident-swap", mutate_identifiers(rng, pool[rng.randrange(len(pool))], rng.randrange(1, 4))))
+    # nesting just inside the parser's limits (the limits of the fifth-session repair: every later pass - disambiguation, binding, canonicalisation,
+    # typedef resolution, type checking, this walk - recurses over a tree that deep)
+    for t in ["int a; void f(void){ " + "if(a) " * 1900 + " ; }", "int a; void f(void){ " + "if(a) ; else " * 1900 + " ; }", "int a; void f(void){ " + "a=" * 900 + " 1; }",
+              "int a; void f(void){ a = " + "(int)" * 480 + " 1; }", "int " + "*" * 900 + "p;", "struct s { int a; " * 450 + " m; }" * 450 + ";",
+              "int a; void f(void){ a = " + "a?a:" * 900 + " 1; }", "int g(int); int a; void f(void){ a = " + "g(" * 300 + "1" + ")" * 300 + "; }", "int arr" + "[1]" * 900 + ";"]:
+        texts.append(("near-limit", t))
     # the forms that need every extension / translation switched on (kind "ext": parsed with all switches on)
     from gen.snippets import extension_corpus
     for _, t in extension_corpus():
